@@ -19,6 +19,7 @@ package scalarDistribution
 /* -------------------------------------------------------------------------- */
 
 import   "fmt"
+import   "math"
 
 import . "github.com/pbenner/autodiff"
 import . "github.com/pbenner/autodiff/statistics"
@@ -68,6 +69,10 @@ func (dist *ChiSquaredDistribution) ScalarType() ScalarType {
 }
 
 func (dist *ChiSquaredDistribution) LogPdf(r Scalar, x ConstScalar) error {
+  if v := x.GetFloat64(); v <= 0.0 || math.IsInf(v, 1) {
+    r.SetFloat64(math.Inf(-1))
+    return nil
+  }
   t := NewScalar(dist.ScalarType(), 0.0)
   r.Log(x)
   r.Mul(r, dist.E)
@@ -94,6 +99,10 @@ func (dist *ChiSquaredDistribution) LogCdf(r Scalar, x ConstScalar) error {
 }
 
 func (dist *ChiSquaredDistribution) Cdf(r Scalar, x ConstScalar) error {
+  if x.GetFloat64() <= 0.0 {
+    r.SetFloat64(0.0)
+    return nil
+  }
   r.Div(x, dist.C)
   r.GammaP(dist.L.GetFloat64(), r)
   return nil
